@@ -31,12 +31,15 @@ func (l *LineFilterPlanner) Process(ctx *shared.PlannerContext) (sql.ISelect, er
 	case "|~":
 		likeStr, isInsensitive, isLike := l.re2Like()
 		if isLike {
+			// doLike reads l.Val; the plan may be executed again (live tail), so the regex is put back
+			val := l.Val
 			l.Val = likeStr
 			like := "like"
 			if isInsensitive {
 				like = "ilike"
 			}
 			clause, err = l.doLike(like)
+			l.Val = val
 		} else {
 			clause = sql.Eq(&sqlMatch{
 				col:     sql.NewRawObject("string"),
@@ -47,12 +50,15 @@ func (l *LineFilterPlanner) Process(ctx *shared.PlannerContext) (sql.ISelect, er
 	case "!~":
 		likeStr, isInsensitive, isLike := l.re2Like()
 		if isLike {
+			// doLike reads l.Val; the plan may be executed again (live tail), so the regex is put back
+			val := l.Val
 			l.Val = likeStr
 			like := "notLike"
 			if isInsensitive {
 				like = "notILike"
 			}
 			clause, err = l.doLike(like)
+			l.Val = val
 		} else {
 			clause = sql.Eq(&sqlMatch{
 				col:     sql.NewRawObject("string"),
